@@ -153,6 +153,30 @@ Fixpoint must_check (sk : skel) : bool :=
   | _ => false
   end.
 
+(* ------------------------------------------------------------------ the decision table of check_random_state *)
+(* Backend.check_random_state is an if / elif chain of type tests on its argument, each returning a generator, ended by a
+   raise.  The harness re-reads that chain from the source on every run (ast) and writes it as a table; [table_action]
+   evaluates it on the four kinds of argument the model distinguishes, first match wins. *)
+Inductive crs_test := TIsNone | TIsInt | TIsRandomState | TUnknown.
+   (* seed is None | isinstance(seed, int) | isinstance(seed, np.random.RandomState) | anything the translator does not understand *)
+Inductive crs_action := AGlobalGen | AFreshSeeded | ASelf | ARaise | AUnknown.
+   (* return np.random.mtrand._rand | return np.random.RandomState(seed) | return seed | raise | anything else *)
+Inductive crs_kind := KNone | KInt | KGen | KBad.
+Definition kind_of (p : rsval) : crs_kind := match p with VNone => KNone | VInt _ => KInt | VGen _ => KGen | VBad => KBad end.
+Definition test_holds (t : crs_test) (k : crs_kind) : bool :=
+  match t, k with TIsNone, KNone | TIsInt, KInt | TIsRandomState, KGen => true | _, _ => false end.
+Fixpoint table_action (tbl : list (crs_test * crs_action)) (dflt : crs_action) (k : crs_kind) : crs_action :=
+  match tbl with [] => dflt | (t, a) :: r => if test_holds t k then a else table_action r dflt k end.
+Definition action_eqb (a b : crs_action) : bool :=
+  match a, b with AGlobalGen, AGlobalGen | AFreshSeeded, AFreshSeeded | ASelf, ASelf | ARaise, ARaise => true | _, _ => false end.
+(* fail closed: a test the translator did not understand anywhere in the chain makes the table unacceptable *)
+Definition crs_table_ok (tbl : list (crs_test * crs_action)) (dflt : crs_action) : bool :=
+  forallb (fun ta => match fst ta with TUnknown => false | _ => true end) tbl &&
+  action_eqb (table_action tbl dflt KNone) AGlobalGen && action_eqb (table_action tbl dflt KInt) AFreshSeeded &&
+  action_eqb (table_action tbl dflt KGen) ASelf && action_eqb (table_action tbl dflt KBad) ARaise.
+(* the chain as it is written in /repo/tensorly/backend/core.py *)
+Definition crs_table_repo : list (crs_test * crs_action) := [(TIsNone, AGlobalGen); (TIsInt, AFreshSeeded); (TIsRandomState, ASelf)].
+
 (* ------------------------------------------------------------------ semantics *)
 Section Sem.
 Variables gstate value req : Type.
@@ -185,6 +209,20 @@ Definition check_random_state (p : rsval) (w : lworld) : option gen * lworld :=
               else (None, failL w)          (* np.random.RandomState(seed) raises ValueError *)
   | VGen g => (Some g, w)
   | VBad => (None, failL w)
+  end.
+
+(* check_random_state driven by a decision table (Proofs/DrawsProofsHist.v: equal to the definition above for every table
+   that [crs_table_ok] accepts) *)
+Definition crs_by_table (tbl : list (crs_test * crs_action)) (dflt : crs_action) (p : rsval) (w : lworld) : option gen * lworld :=
+  match table_action tbl dflt (kind_of p), p with
+  | AGlobalGen, _ => (Some GGlobal, w)
+  | AFreshSeeded, VInt s =>
+      if seed_ok s
+      then (Some (GObj (length (heap w))),
+            {| heap := heap w ++ [seed s]; hist := hist w; ticks := ticks w; srcs := srcs w; failed := failed w |})
+      else (None, failL w)
+  | ASelf, VGen g => (Some g, w)
+  | _, _ => (None, failL w)
   end.
 
 Definition draw_obj (I : interp) (t h : nat) (w : lworld) : lworld :=
@@ -720,3 +758,21 @@ Definition model_projection (e : ep) (o : opts) (a : rsarg Z) : projection :=
 (* a configuration used by the non-vacuity examples of Props/C16.v: randomized-SVD init with mask, rank above every mode size *)
 Definition ex_opts : opts :=
   {| o_shape := [4; 3; 5]; o_rank := 6; o_init := ISvd; o_svd := SRandomized; o_mask := true; o_nrep := 2; o_iters := 2; o_aux := 3 |}.
+
+(* a fixed grid of option values (every initialisation x SVD method x mask / indices_list flag x rank below / above the mode
+   sizes): the hand-written skeleton of an entry point is evaluated on ALL of them, independently of which configurations the
+   dynamic correspondence happens to exercise (Corr/C16.v, Props/C16.v) *)
+Definition opt_grid : list opts :=
+  flat_map (fun ini => flat_map (fun sv => flat_map (fun mk => map (fun rk =>
+    {| o_shape := [4; 3; 5]; o_rank := rk; o_init := ini; o_svd := sv; o_mask := mk; o_nrep := 2; o_iters := 2; o_aux := 3 |})
+    [2; 6]) [false; true]) [STruncated; SSymeig; SRandomized]) [IRandom; ISvd; IUser].
+
+
+(* every modelled definition that accepts and uses a random_state *)
+Definition seedable_eps : list ep :=
+  let base := [E_random_tensor; E_random_cp; E_random_tucker; E_random_tt; E_random_tr; E_random_tt_matrix; E_random_parafac2;
+               E_check_random_state; E_range_finder; E_randomized_svd; E_svd_interface;
+               E_initialize_cp; E_parafac; E_nn_parafac; E_nn_parafac_hals; E_constrained_parafac; E_initialize_constrained; E_randomised_parafac;
+               E_sample_khatri_rao; E_initialize_tucker; E_partial_tucker; E_tucker; E_nn_tucker; E_nn_tucker_hals;
+               E_parafac2; E_parafac2_init; E_compute_projections; E_tr_als; E_tr_als_sampled; E_tt_cross; E_cp_regressor; E_tucker_regressor] in
+  base ++ map E_estimator base.
